@@ -99,6 +99,16 @@ func (e *Engine) structEq(a, b StructV) *Term {
 }
 
 func (e *Engine) binop(in *ssa.BinOp, xv, yv Value) (Value, string) {
+	if xv == nil {
+		if _, ok := yv.(IfaceV); ok || yv == nil {
+			xv = IfaceV{} // the zero interface value
+		}
+	}
+	if yv == nil {
+		if _, ok := xv.(IfaceV); ok {
+			yv = IfaceV{}
+		}
+	}
 	switch x := xv.(type) {
 	case Ptr:
 		y, ok := yv.(Ptr)
